@@ -595,6 +595,16 @@ pub fn suite_enum(out: &mut Out, _tier: &str, _rng: &mut Rng) {
     for f in ["MessageType", "ErrorType", "ProxyAuthenType", "StopCcn", "Cdn"] {
         out.emit(json!({"op": "enum_names", "field": f}));
     }
+    // the same sweeps with the AVP inside a whole control message (Message::try_read_validate): as the first AVP
+    // (message types), behind the message types that carry it (Result Code in StopCCN / CDN, Proxy Authen Type
+    // in ICCN), and every attribute type behind a Hello
+    for (f, ctxs) in [("MessageType", vec![0u16]), ("ErrorType", vec![4, 14]), ("ProxyAuthenType", vec![12]), ("AttributeType", vec![6, 1])] {
+        for ctx in ctxs {
+            for (lo, hi) in [(0u32, 255u32), (256, 32767), (32768, 65535)] {
+                out.emit(json!({"op": "enum_map", "field": f, "lo": lo, "hi": hi, "ctx": ctx}));
+            }
+        }
+    }
     // many unassigned codes in ONE message (255, 256, 257 of them after a valid Message Type): still rejected
     for n in [255usize, 256, 257] {
         for field in 0..3 {
@@ -645,6 +655,11 @@ pub fn suite_bitmask(out: &mut Out, tier: &str, rng: &mut Rng) {
             words.push((rng.next() as u32).to_be_bytes());
         }
         out.emit(json!({"op": "bitmask", "kind": k, "words": words.iter().map(|w| bytes_json(w)).collect::<Vec<_>>()}));
+        // the same words followed by surplus payload octets (ignored by the layout: the word is the first four)
+        for surplus in [vec![0u8], vec![0, 0, 0, 0x80], vec![0xff, 0xff, 0xff, 0x3f, 1, 2, 3, 4]] {
+            let some: Vec<Value> = words.iter().step_by(if tier == "thorough" { 1 } else { 5 }).map(|w| bytes_json(w)).collect();
+            out.emit(json!({"op": "bitmask", "kind": k, "words": some, "surplus": bytes_json(&surplus)}));
+        }
     }
 }
 
@@ -729,6 +744,64 @@ pub fn suite_cursor(out: &mut Out, tier: &str, rng: &mut Rng) {
         }
         out.emit(json!({"op": "cursor", "slice": bytes_json(&slice), "ops": ops}));
     }
+    // medium and large slices: requests around 2^8, 2^10, 2^16 and 2^17 (a size kept in 8 or 16 bits wraps here)
+    let plans: &[(usize, [usize; 3])] = &[(300, [255, 256, 257]), (2000, [1023, 1024, 1025]), (70000, [65535, 65536, 65540]), (131100, [65537, 131071, 131072])];
+    for (len, sizes) in plans.iter() {
+        if *len > 100000 && tier != "thorough" {
+            continue;
+        }
+        let slice = rng.bytes(*len);
+        for &sz in sizes.iter() {
+            for op in ["sub", "skip", "bytes"] {
+                let mut ops = vec![json!([0, "skip", 3]), json!([0, "read", 2]), json!([0, op, sz]), json!([0, "len", 0]), json!([0, "read", 1])];
+                if op == "sub" {
+                    ops.extend([json!([1, "len", 0]), json!([1, "read", 4]), json!([1, "skip", sz - 10]), json!([1, "bytes", 6]), json!([1, "len", 0]),
+                                json!([1, "bytes", 1])]);
+                    // a sub-reader of the sub-reader
+                    ops.extend([json!([0, "sub", 9]), json!([2, "sub", 5]), json!([3, "read", 4]), json!([3, "len", 0]), json!([2, "len", 0])]);
+                }
+                ops.push(json!([0, "bytes", 7]));
+                out.emit(json!({"op": "cursor", "slice": bytes_json(&slice), "ops": ops}));
+            }
+        }
+    }
+    // longer random sequences on slices of a few hundred octets
+    for _ in 0..counts(tier, 40, 2000) {
+        let len = rng.range(100, 700) as usize;
+        let slice = rng.bytes(len);
+        let mut lens: Vec<Option<usize>> = vec![Some(len)];
+        let mut ops = Vec::new();
+        for _ in 0..rng.range(10, 40) {
+            let rid = rng.below(lens.len() as u64) as usize;
+            let Some(rem) = lens[rid] else { continue };
+            let k = *rng.pick(&[0usize, 1, 2, 7, 8, 15, 16, 17, 31, 32, 33, 63, 64, 65, rem, rem / 2, rem.saturating_sub(1)]);
+            let k = k.min(rem);
+            match rng.below(8) {
+                0 | 1 => {
+                    let w = *rng.pick(&[1usize, 2, 4, 8]);
+                    ops.push(json!([rid, "read", w]));
+                    if w <= rem {
+                        lens[rid] = Some(rem - w);
+                    }
+                }
+                2 | 3 => {
+                    ops.push(json!([rid, "bytes", k]));
+                    lens[rid] = Some(rem - k);
+                }
+                4 => {
+                    ops.push(json!([rid, "skip", k]));
+                    lens[rid] = Some(rem - k);
+                }
+                5 | 6 => {
+                    ops.push(json!([rid, "sub", k]));
+                    lens[rid] = Some(rem - k);
+                    lens.push(Some(k));
+                }
+                _ => ops.push(json!([rid, "len", 0])),
+            }
+        }
+        out.emit(json!({"op": "cursor", "slice": bytes_json(&slice), "ops": ops}));
+    }
 }
 
 pub fn suite_vecwriter(out: &mut Out, tier: &str, rng: &mut Rng) {
@@ -775,6 +848,16 @@ pub fn suite_vecwriter(out: &mut Out, tier: &str, rng: &mut Rng) {
             }
         }
         out.emit(json!({"op": "vecwriter", "ops": ops}));
+    }
+    // buffers beyond 2^8 / 2^16 octets with overwrites at offsets around those sizes
+    for total in [300usize, 70000] {
+        for off in [total - 2, total - 1, total, 255, 256, 65535.min(total - 2), 65536.min(total - 2), 65540.min(total - 2)] {
+            let mut ops = vec![json!(["bytes", bytes_json(&rng.bytes(total / 2)), 0]), json!(["bytes", bytes_json(&rng.bytes(total - total / 2)), 0])];
+            ops.push(json!(["at", bytes_json(&rng.bytes(2)), off]));
+            ops.push(json!(["u16", bytes_json(&rng.bytes(2)), 0]));
+            ops.push(json!(["at", bytes_json(&rng.bytes(2)), off]));
+            out.emit(json!({"op": "vecwriter", "ops": ops}));
+        }
     }
 }
 
@@ -1397,6 +1480,56 @@ pub fn suite_history(out: &mut Out, tier: &str, rng: &mut Rng) {
                                   "lp": bytes_json(&lp), "ap": bytes_json(&ap), "id": 0}));
             }
         }
+        // near-duplicates, adjacent: two valid AVPs of the same kind and length that differ only in letter case,
+        // in one bit of the first / last payload octet, or in the order of two octets -- a cache keyed on less
+        // than the whole input answers the second with the first
+        for (ki, (t, _, _)) in KINDS.iter().enumerate() {
+            let a = gen_avp_kind(rng, ki, 9);
+            let p = enc_payload(&a);
+            if p.is_empty() {
+                continue;
+            }
+            let mut variants: Vec<Vec<u8>> = Vec::new();
+            let cased: Vec<u8> = p.iter().map(|c| if c.is_ascii_alphabetic() { c ^ 0x20 } else { *c }).collect();
+            if cased != p {
+                variants.push(cased);
+            }
+            let mut q = p.clone();
+            q[0] ^= 1;
+            variants.push(q);
+            let mut q = p.clone();
+            let l = q.len() - 1;
+            q[l] ^= 0x80;
+            variants.push(q);
+            if p.len() >= 2 && p[0] != p[1] {
+                let mut q = p.clone();
+                q.swap(0, 1);
+                variants.push(q);
+            }
+            let mt = enc_avp(&gen_message_type(rng));
+            let wrap = |pl: &[u8]| {
+                let mut b = mt.clone();
+                b.extend(enc_record(1, 6 + pl.len(), 0, *t, pl));
+                enc_control_raw(flag_word(true, true, true, false, false, 2), None, [1, 2, 3, 4], &b)
+            };
+            calls.push(json!({"op": "decode", "in": bytes_json(&wrap(&p)), "opts": [true, true, true], "entry": "validate", "rdr": "slice", "id": 0}));
+            // (p, v1, v2, ...: in the reversed rounds each one follows a DIFFERENT neighbour, so an answer taken
+            // from the previous call shows as a result that depends on the history)
+            for v in variants {
+                calls.push(json!({"op": "decode", "in": bytes_json(&wrap(&v)), "opts": [true, true, true], "entry": "validate", "rdr": "slice", "id": 0}));
+            }
+        }
+        // texts that differ only in case / normalisation form, in every text kind
+        for k in ["VendorName", "CalledNumber", "CallingNumber", "SubAddress", "ResultCode", "Q931CauseCode"] {
+            for (x, y) in [("Acme Networks", "ACME NETWORKS"), ("abc", "ABC"), ("e\u{301}", "\u{e9}"), ("a b", "a\u{a0}b"), ("x\r\n", "x\n\n")] {
+                for t in [x, y] {
+                    let a = text_avp(k, t.as_bytes(), rng);
+                    let m = json!({"k": "Control", "length": 0, "tunnel_id": 1, "session_id": 2, "ns": 3, "nr": 4,
+                                   "avps": [json!({"k": "MessageType", "f": ["Hello"]}), a]});
+                    calls.push(json!({"op": "decode", "in": bytes_json(&enc_control(&m)), "opts": [true, true, true], "entry": "validate", "rdr": "slice", "id": 0}));
+                }
+            }
+        }
         // the same octets under lax and then strict options, adjacent in the even rounds and apart in the
         // odd (reversed) ones: a result must not depend on what an earlier call accepted
         for _ in 0..10 {
@@ -1515,10 +1648,20 @@ pub fn suite_small_values(out: &mut Out, tier: &str, rng: &mut Rng) {
                     }
                     let mut a = gen_avp_kind(rng, ki, 6);
                     a["f"][fi] = json!(val);
-                    if *name == "ResultCode" && val % 2 == 0 {
-                        a["f"][1] = json!([]);
-                        a["f"][2] = json!([]);
+                    if *name == "ResultCode" {
+                        // every small code both with and without the optional error part
+                        let mut bare = a.clone();
+                        bare["f"][1] = json!([]);
+                        bare["f"][2] = json!([]);
+                        let other = if a["f"][1].as_array().map_or(true, |x| x.is_empty()) {
+                            json!({"k": "ResultCode", "f": [val, ["Generic"], []]})
+                        } else {
+                            bare
+                        };
+                        out.emit(json!({"op": "roundtrip", "kind": "avp", "v": other}));
+                        out.emit(json!({"op": "decode_payload", "t": 1, "in": bytes_json(&enc_payload(&other)), "rdr": "slice"}));
                     }
+                    out.emit(json!({"op": "decode_payload", "t": KINDS[ki].0, "in": bytes_json(&enc_payload(&a)), "rdr": "slice"}));
                     out.emit(json!({"op": "roundtrip", "kind": "avp", "v": a}));
                     let m = json!({"k": "Control", "length": 0, "tunnel_id": val, "session_id": rng.u16(), "ns": val, "nr": rng.u16(),
                                    "avps": [gen_message_type(rng), a]});
@@ -1670,7 +1813,8 @@ pub fn suite_kind_pairs(out: &mut Out, tier: &str, rng: &mut Rng) {
 /// every payload octet of a valid AVP of every kind set to each of a list of values (thorough: all 256):
 /// the per-type readers must depend on each octet exactly as the specification says
 pub fn suite_octet_sweep(out: &mut Out, tier: &str, rng: &mut Rng) {
-    let quick_vals: [u8; 16] = [0, 1, 2, 0x3f, 0x40, 0x7f, 0x80, 0xbf, 0xc0, 0xc2, 0xe0, 0xed, 0xf0, 0xf4, 0xf5, 0xff];
+    let mut quick_vals: Vec<u8> = (0..=16u8).collect();
+    quick_vals.extend([0x3f, 0x40, 0x7f, 0x80, 0xbf, 0xc0, 0xc2, 0xe0, 0xed, 0xf0, 0xf4, 0xf5, 0xfe, 0xff]);
     let all: Vec<u8> = (0..=255u8).collect();
     let vals: &[u8] = if tier == "thorough" { &all } else { &quick_vals };
     for (ki, (t, _, _)) in KINDS.iter().enumerate() {
@@ -1685,6 +1829,14 @@ pub fn suite_octet_sweep(out: &mut Out, tier: &str, rng: &mut Rng) {
                     let mut q = p.clone();
                     q[i] = v;
                     out.emit(json!({"op": "decode_payload", "t": t, "in": bytes_json(&q), "rdr": "slice"}));
+                    // ... and with everything behind the fixed part cut off (optional parts absent)
+                    let m = min_len(KINDS[ki].2);
+                    if i < m && m < q.len() {
+                        out.emit(json!({"op": "decode_payload", "t": t, "in": bytes_json(&q[..m]), "rdr": "slice"}));
+                        if m + 1 < q.len() {
+                            out.emit(json!({"op": "decode_payload", "t": t, "in": bytes_json(&q[..m + 1]), "rdr": "slice"}));
+                        }
+                    }
                     if (i + v as usize + rep) % 8 == 0 {
                         // the same record inside a control message, through the whole chain
                         let mut body = enc_avp(&gen_message_type(rng));
